@@ -6,7 +6,7 @@ import itertools
 from typing import Any
 
 from ..astutil import alpha, dotted, is_const, norm, walk_body
-from ..finite import NeedAtom
+from ..finite import NeedAtom, k_eq
 from ..dtree import decision_tree
 from ..ordertypes import OrderEval, P, R, Raised, weak_orderings
 from ..report import Checker
@@ -130,7 +130,7 @@ def r_interval_laws(ck: Checker) -> None:
 
 def r_add_form(ck: Checker) -> None:
     f = ck.repo.func(ORIGIN, "CodeOrigin.__add__")
-    leaves = decision_tree(f.node.body)
+    leaves = decision_tree(f.node.body, resolve="calls")
     k_inst = "isinstance(other, CodeOrigin)"
     k_src = "eq(other.source,self.source)"
     k_ov = "self.position.overlaps(other.position)"
@@ -141,8 +141,7 @@ def r_add_form(ck: Checker) -> None:
         a = lf.assign
         unknown = set(a) - {k_inst, k_src, k_ov, k_ov2}
         if unknown:
-            bad.append(f"decides on {sorted(unknown)}")
-            continue
+            raise Unsupported(f"CodeOrigin.__add__ decides on {sorted(unknown)}", f.node)
         ov = a.get(k_ov, a.get(k_ov2))
         all_true = a.get(k_inst) is True and a.get(k_src) is True and ov is True
         v = lf.val() or ""
@@ -176,17 +175,46 @@ def r_add_form(ck: Checker) -> None:
         ck.violation("R-ADD-FORM", g, g.node, what, construct=f"Origin.__add__ returns {[norm(r.value) for r in rets if r.value is not None]}")
 
 
+def _single_unpack(lf, acc: str) -> bool:
+    """`only, = acc` ; `return only` : the single remaining operand itself."""
+    if lf.value is None or not isinstance(lf.value, ast.Name):
+        return False
+    for st in lf.stmts:
+        if isinstance(st, ast.Assign) and isinstance(st.targets[0], (ast.Tuple, ast.List)) and len(st.targets[0].elts) == 1 \
+                and norm(st.targets[0].elts[0]) == lf.value.id and norm(st.value) == acc:
+            return True
+    return False
+
+
 def r_merge_flat(ck: Checker) -> None:
     f = ck.repo.func(ORIGIN, "merge_origins")
     fn = f.node
     va = fn.args.vararg.arg if fn.args.vararg else None
     if va is None:
         raise Unsupported("merge_origins takes no *origins", fn)
-    loops = [s for s in fn.body if isinstance(s, ast.For)]
-    if len(loops) != 1 or norm(loops[0].iter) != va:
-        raise Unsupported("merge_origins is not a single loop over its operands", fn)
+    loops = [s for s in fn.body if isinstance(s, ast.For) and norm(s.iter) == va
+             and any(isinstance(c, ast.Call) and isinstance(c.func, ast.Attribute) and c.func.attr in ("append", "extend") for c in walk_body(s.body))]
+    if len(loops) != 1:
+        raise Unsupported("merge_origins is not a single collecting loop over its operands", fn)
     lp = loops[0]
     o = norm(lp.target)
+    from ..normalize import resolve_path
+
+    def canon_ops(stmts: list[ast.stmt]) -> list[str]:
+        """`for x in S: acc.append(x)` is `acc.extend(S)`."""
+        out = []
+        for st in resolve_path(stmts):
+            if isinstance(st, ast.For) and isinstance(st.target, ast.Name):
+                inner = [x for x in resolve_path(st.body) if not (isinstance(x, ast.Assign) and isinstance(x.targets[0], ast.Name))]
+                if len(inner) == 1 and isinstance(inner[0], ast.Expr) and isinstance(inner[0].value, ast.Call) and isinstance(inner[0].value.func, ast.Attribute) \
+                        and inner[0].value.func.attr == "append" and [norm(a) for a in inner[0].value.args] == [st.target.id]:
+                    out.append(f"{norm(inner[0].value.func.value)}.extend({norm(st.iter)})")
+                    continue
+            if isinstance(st, ast.Assign) and isinstance(st.targets[0], ast.Name):
+                continue  # a local holding the element
+            out.append(norm(st))
+        return out
+
     leaves = decision_tree(lp.body)
     k_no, k_multi = f"isinstance({o}, NoOrigin)", f"isinstance({o}, MultiOrigin)"
     acc = None
@@ -196,7 +224,7 @@ def r_merge_flat(ck: Checker) -> None:
         if set(a) - {k_no, k_multi}:
             bad.append(f"decides on {sorted(set(a) - {k_no, k_multi})}")
             continue
-        ops = [norm(st) for st in lf.stmts]
+        ops = canon_ops(lf.stmts)
         if a.get(k_no):
             if ops:
                 bad.append(f"NoOrigin operand is not skipped: {ops}")
@@ -229,7 +257,7 @@ def r_merge_flat(ck: Checker) -> None:
             bad.append("result chosen without looking at the number of remaining operands")
         elif n == 0 and v not in ("NoOrigin()", "NO_ORIGIN"):
             bad.append(f"nothing remains: returns {v}")
-        elif n == 1 and v not in (f"{acc}[0]", f"{acc}[-1]"):
+        elif n == 1 and v not in (f"{acc}[0]", f"{acc}[-1]") and not _single_unpack(lf, acc):
             bad.append(f"one operand remains: returns {v}")
         elif n >= 2 and v not in (f"MultiOrigin(origins={acc})", f"MultiOrigin({acc})", f"MultiOrigin(origins=tuple({acc}))", f"MultiOrigin(tuple({acc}))"):
             bad.append(f"{n} operands remain: returns {v}")
@@ -272,6 +300,22 @@ def r_merge_flat(ck: Checker) -> None:
             first = c.node.args.args[0].arg
             inits = [s for s in c.node.body if isinstance(s, ast.Assign) and norm(s.targets[0]) == accv and norm(s.value) == first]
             ok = bool(inits) and any(r.value is not None and norm(r.value) == accv for r in rets)
+    if not ok:
+        # functools.reduce with an addition operator over the operands, starting from the first one
+        first = c.node.args.args[0].arg
+        va = c.node.args.vararg.arg if c.node.args.vararg else None
+        for r_ in [x for x in walk_body(c.node.body) if isinstance(x, ast.Return) and isinstance(x.value, ast.Call)]:
+            cl = r_.value
+            if (dotted(cl.func) or "").split(".")[-1] == "reduce" and len(cl.args) == 3 and not cl.keywords:
+                op, seq, init = cl.args
+                op_ok = norm(op) in ("operator.iadd", "operator.add", "iadd", "add") or (
+                    isinstance(op, ast.Lambda) and len(op.args.args) == 2 and isinstance(op.body, ast.BinOp) and isinstance(op.body.op, ast.Add)
+                    and norm(op.body.left) == op.args.args[0].arg and norm(op.body.right) == op.args.args[1].arg)
+                ok = op_ok and norm(seq) == va and norm(init) == first
+    if not ok and not any("+" in norm(x) or "add" in norm(x) for x in c.node.body):
+        ok = False
+    elif not ok:
+        raise Unsupported("concat_origins: fold with + not recognised", c.node)
     (ck.holds if ok else ck.violation)("R-MERGE-FLAT", c, c.node, what, **({} if ok else {"construct": "concat_origins: fold with + not recognised"}))
     # MultiOrigin.__post_init__: source / position inferred in operand order
     m = ck.repo.func(ORIGIN, "MultiOrigin.__post_init__")
@@ -289,7 +333,30 @@ def r_merge_flat(ck: Checker) -> None:
             return assign[key]
         return NotImplemented
 
-    leaves = decision_tree(m.node.body, call_hook=common_hook, domain=lambda k: (0, 1, 2, 3) if k.startswith("len(") else (True, False))
+    def search_hook(lp: ast.stmt, assign: dict) -> object:
+        """for o in self.origins[1:]: if o.source != first.source: <different>; break   else: <common>
+        is the common-source test written as a search: replaced by `if all(...): <common> else: <different>`."""
+        if not (isinstance(lp, ast.For) and isinstance(lp.target, ast.Name) and norm(lp.iter) in ("self.origins[1:]", "self.origins")):
+            raise Unsupported("loop in MultiOrigin.__post_init__ is not a search over the members", lp)
+        t = lp.target.id
+        if not (len(lp.body) == 1 and isinstance(lp.body[0], ast.If) and not lp.body[0].orelse and lp.body[0].body and isinstance(lp.body[0].body[-1], ast.Break)):
+            raise Unsupported("member search loop is not `if <source differs>: ...; break`", lp)
+        test = lp.body[0].test
+        from ..finite import canon_cmp
+        pol = True
+        while isinstance(test, ast.UnaryOp) and isinstance(test.op, ast.Not):
+            test, pol = test.operand, not pol
+        cc = canon_cmp(test) if isinstance(test, ast.Compare) else None
+        want = k_eq(f"{t}.source", "self.origins[0].source")
+        if cc is None or cc[0] != want or (cc[1] == pol):
+            raise Unsupported(f"member search tests {norm(lp.body[0].test)[:60]}", lp)
+        if any(isinstance(n_, ast.Name) and n_.id == t for st_ in lp.body[0].body[:-1] for n_ in ast.walk(st_)):
+            raise Unsupported("the differing-source branch uses the member found", lp)
+        allc = ast.parse(f"all(({t}.source == self.origins[0].source for {t} in {norm(lp.iter)}))", mode="eval").body
+        summary = ast.If(test=allc, body=list(lp.orelse) or [ast.Pass()], orelse=list(lp.body[0].body[:-1]) or [ast.Pass()])
+        return [ast.fix_missing_locations(ast.copy_location(summary, lp))]
+
+    leaves = decision_tree(m.node.body, call_hook=common_hook, loop_hook=search_hook, domain=lambda k: (0, 1, 2, 3) if k.startswith("len(") else (True, False))
     bad = []
     n_ok = 0
     for lf in leaves:
